@@ -130,9 +130,11 @@ Proof.
   - cbn in Hseg. subst l. rewrite g_invalidate_cond. cbn [is_nil negb].
     exists h. repeat split; auto. intros x [].
   - cbn [MlinkBasics.lseg] in Hseg. destruct Hseg as [-> [Hb Hseg]].
-    rewrite g_invalidate_cond. cbn [is_nil negb deref bind].
+    rewrite g_invalidate_cond. cbn [is_nil negb]. rewrite g_inv_body.
+    cbn [seq_env]. unfold inv_next, inv_self, inv_adv. cbn [fst snd deref bind].
+    rewrite load_eq by assumption. cbn [bind fst snd deref].
     rewrite load_eq by assumption. cbn [bind fst snd].
-    rewrite store_eq by assumption. cbn [bind].
+    rewrite store_eq by assumption. cbn [bind fst snd].
     rewrite g_invalidate_newlink, g_invalidate_next, g_invalidate_adv.
     inversion Hnd as [|? ? Hnin Hnd']. subst.
     set (h1 := upd T h b (vl h b, Ptr b)).
@@ -286,10 +288,19 @@ Proof.
     - destruct (Nat.eqb_spec x b) as [->|]; reflexivity. }
   split; [|split; [|split; [|split; [|split]]]].
   - unfold cur_remove. rewrite (at_end_ok _ _ _ Ht). cbn [bind hdlink is_nil]. unfold remove_atend.
+    rewrite g_rm_body. cbn [seq_env]. unfold rm_val, rm_next, rm_self, rm_new. cbn [fst snd].
+    (* val := c.pred.link.X *)
+    rewrite load_eq by assumption. cbn [bind snd]. rewrite (tailok_lnk _ _ _ _ Ht). cbn [hdlink deref bind].
+    rewrite load_eq by assumption. cbn [bind fst snd].
+    (* next := c.pred.link.link *)
+    rewrite load_eq by assumption. cbn [bind snd]. rewrite (tailok_lnk _ _ _ _ Ht). cbn [hdlink deref bind].
+    rewrite load_eq by assumption. cbn [bind fst snd].
+    (* c.pred.link.link = c.pred.link *)
     rewrite load_eq by assumption. cbn [bind snd]. rewrite (tailok_lnk _ _ _ _ Ht). cbn [hdlink deref bind].
     rewrite load_eq by assumption. cbn [bind fst snd].
     rewrite store_eq by assumption. cbn [bind fst snd]. rewrite g_remove_selflink. fold h1.
-    rewrite load_eq by lia. cbn [bind fst snd]. rewrite store_eq by lia. cbn [bind].
+    (* c.pred.link = next *)
+    rewrite load_eq by lia. cbn [bind fst snd]. rewrite store_eq by lia. cbn [bind fst snd].
     rewrite g_remove_next, g_remove_newlink. reflexivity.
   - eapply wf_rebuild; [exact Hwf|rewrite upd_length by lia; lia| | | |].
     + intros x Hx. rewrite Hlnk.
@@ -381,12 +392,13 @@ Proof.
   destruct (invalidate_ok suf (lnk h a) h a (S (length h)) Hs ltac:(inversion Hnd; assumption) Hfuel)
     as [h1 [E [Hl1 [Hin [Hout Hv]]]]].
   exists (upd T h1 a (vl h1 a, Nil)). split.
-  - unfold cur_truncate, cur_truncate_gen. rewrite checked_eq by (assumption || reflexivity).
+  - unfold cur_truncate, cur_truncate_gen. rewrite g_tr_body. cbn [seq_env]. unfold tr_inval, tr_nil.
+    rewrite checked_eq by (assumption || reflexivity).
     rewrite (tailok_not_self _ _ _ _ Ht). cbn [bind].
     rewrite load_eq by assumption. cbn [bind fst snd].
     replace (called truncate_ncalls_invalidate) with true by reflexivity.
     rewrite E. cbn [bind fst snd]. rewrite load_eq by lia. cbn [bind fst snd].
-    rewrite store_eq by lia. rewrite g_truncate_newlink. reflexivity.
+    rewrite store_eq by lia. cbn [bind]. rewrite g_truncate_newlink. reflexivity.
   - apply (trunc_post h pre a suf h1); assumption.
 Qed.
 
@@ -404,10 +416,11 @@ Proof.
   destruct (invalidate_ok c (lnk h 0) h 0 (S (length h)) Hs ltac:(inversion Hnd; assumption) Hfuel)
     as [h1 [E [Hl1 [Hin [Hout Hv]]]]].
   exists (upd T h1 0 (vl h1 0, Nil)). split.
-  - unfold list_clear, cfirst. rewrite load_eq by assumption. cbn [bind fst snd].
+  - unfold list_clear, cfirst. rewrite g_cl_body. cbn [seq_env]. unfold cl_inval, cl_nil.
+    rewrite load_eq by assumption. cbn [bind fst snd].
     replace (called clear_ncalls_invalidate) with true by reflexivity.
     rewrite E. cbn [bind fst snd]. rewrite load_eq by lia. cbn [bind fst snd].
-    rewrite store_eq by lia. rewrite g_clear_newlink. reflexivity.
+    rewrite store_eq by lia. cbn [bind]. rewrite g_clear_newlink. reflexivity.
   - apply (trunc_post h [] 0 c h1); assumption.
 Qed.
 
